@@ -163,6 +163,13 @@ func C13(c *core.Ctx) {
 		}
 	}
 
+	// R2: the notification goes towards the SMF that owns the session now (shared with C10 R4)
+	reportDestination(c, "R2")
+	// R3: per-PDR state of the release loops does not leak into the next PDR
+	independentIterations(c, "R3", []*ssa.Function{p.SSAFn(p.Method(pkgFwd, "Gtp5g", "applyAction"))})
+	// R7 extent of the buffered packet handed up by the data plane
+	c13PacketExtent(c)
+
 	// R3 drain loops
 	if fn := fnOf(c, "R3", pkgFwd, "Gtp5g", "applyAction"); fn != nil {
 		pop := p.Method(pkgBuff, "Server", "Pop")
@@ -437,4 +444,92 @@ func qerPerPDR(c *core.Ctx, rule string, fn *ssa.Function, w ssa.CallInstruction
 	}
 	walk(args[1], 0)
 	c.Check(rule, "qer-per-pdr", w.Pos(), !leak && len(outer) > 0, "the QER (QFI) used for a PDR's packets is selected within that PDR's iteration and not carried over from the previous PDR")
+}
+
+// c13PacketExtent: in buffnetlink.decodbuffer the packet result is, on every path that sets it, the
+// attribute's value bytes b[n : hdr.Len] of the attribute header just decoded: the low bound is the
+// header size returned by DecodeAttrHdr and the high bound is the header's own (unaligned) length —
+// netlink pads attributes to 4 bytes and the padding is not part of the packet.
+func c13PacketExtent(c *core.Ctx) {
+	p := c.P
+	fn := fnOf(c, "R7", pkgBuff, "", "decodbuffer")
+	if fn == nil {
+		return
+	}
+	n := 0
+	core.Instrs(fn, func(in ssa.Instruction) {
+		r, ok := in.(*ssa.Return)
+		if !ok || len(r.Results) < 4 {
+			return
+		}
+		seen := map[ssa.Value]bool{}
+		var walk func(v ssa.Value)
+		walk = func(v ssa.Value) {
+			if seen[v] {
+				return
+			}
+			seen[v] = true
+			switch x := v.(type) {
+			case *ssa.Const:
+			case *ssa.Phi:
+				for _, e := range x.Edges {
+					walk(e)
+				}
+			case *ssa.Slice:
+				n++
+				var hdrCall *ssa.Call
+				lowOK := false
+				if ex, ok := x.Low.(*ssa.Extract); ok && ex.Index == 1 {
+					if cl, ok := ex.Tuple.(*ssa.Call); ok && core.Callee(cl) != nil && core.Callee(cl).Name() == "DecodeAttrHdr" {
+						hdrCall, lowOK = cl, true
+					}
+				}
+				highOK, why := false, "no upper bound (the rest of the message, padding and later attributes included)"
+				if x.High != nil {
+					h := x.High
+					why = "upper bound is not the attribute header's Len"
+					for {
+						if cv, ok := h.(*ssa.Convert); ok {
+							h = cv.X
+							continue
+						}
+						if ct, ok := h.(*ssa.ChangeType); ok {
+							h = ct.X
+							continue
+						}
+						break
+					}
+					var base ssa.Value
+					fname := ""
+					switch y := h.(type) {
+					case *ssa.Field:
+						base, fname = y.X, core.FieldOfField(y).Name()
+					case *ssa.UnOp:
+						if fa, ok := y.X.(*ssa.FieldAddr); ok {
+							base, fname = fa.X, core.FieldOfAddr(fa).Name()
+							if al, ok := fa.X.(*ssa.Alloc); ok {
+								if sv, ok := aggregateSingleStore(al); ok {
+									base = sv
+								}
+							}
+						}
+					case *ssa.Call:
+						why = "upper bound goes through " + core.FnName(core.StaticFn(y)) + " (aligned length: includes the netlink padding)"
+					}
+					if fname == "Len" && base != nil {
+						if ex, ok := base.(*ssa.Extract); ok && ex.Index == 0 && ex.Tuple == ssa.Value(hdrCall) {
+							highOK = true
+						}
+					}
+				}
+				c.Check("R7", fmt.Sprintf("packet-extent#%d", n), x.Pos(), lowOK && highOK, "the packet handed up is b[header size : header Len] of the attribute just decoded ("+map[bool]string{true: "ok", false: why}[lowOK && highOK]+")")
+			default:
+				n++
+				c.Check("R7", fmt.Sprintf("packet-extent#%d", n), r.Pos(), false, fmt.Sprintf("packet result has an unrecognised origin %T", v))
+			}
+		}
+		walk(r.Results[3])
+	})
+	c.Floor("R7", n, 1, "packet slices in decodbuffer")
+	_ = p
 }
